@@ -143,6 +143,31 @@ pub fn run(ctx: &mut Ctx) {
             ctx.sample("message", || json!({"bytes": hex(&m), "cuts": m.len()}));
         }
     }
+    // ---- every one of the 16 384 message types: a header-only message and one with an attribute,
+    //      every cut (which prefix is reported how must not depend on the type value) ----
+    {
+        let mut k = 0u64;
+        for ty in 0..0x4000u16 {
+            k += 1;
+            if !ctx.mine(k) {
+                continue;
+            }
+            let tid = [(ty >> 8) as u8, ty as u8, 3, 4, 5, 6, 7, 8, 9, 10, 11, 12];
+            let mut m = vec![(ty >> 8) as u8, ty as u8, 0, 0, 0x21, 0x12, 0xa4, 0x42];
+            m.extend_from_slice(&tid);
+            for cut in 0..m.len() {
+                check_prefix(ctx, &m, cut);
+            }
+            let mut m2 = m.clone();
+            m2[3] = 8;
+            m2.extend_from_slice(&[0x80, 0x22, 0x00, 0x03, b'a', b'b', b'c', 0]);
+            for cut in [0usize, 1, 2, 3, 4, 19, 20, 21, 24, 27] {
+                check_prefix(ctx, &m2, cut);
+            }
+            ctx.count("message-types-cut");
+        }
+        ctx.require("message-types-cut", 16_384);
+    }
     // ---- large messages, sampled cuts ----
     let nl = ctx.n(120, 1_200);
     for i in 0..nl {
